@@ -179,10 +179,12 @@ Definition tight_pack24 (depth rmax gmax bmax : Z) : bool :=
 
 (* entry point used by the driver.  level < 0: the client sent no compression level.
    With LastRect enabled and a rectangle of at least MIN_SPLIT_RECT_SIZE pixels the server runs
-   the solid-area search, which is not modelled: Err. *)
-Definition send_tight_top (bypp : nat) (depth be rmax gmax bmax rs gs bs level : Z) (lastrect : bool)
+   the solid-area search, which is not modelled: Err.  quality < 0: no quality level was sent. *)
+Definition send_tight_top (bypp : nat) (depth be rmax gmax bmax rs gs bs level quality : Z) (lastrect : bool)
            (x y w h : nat) (scr : grid) : res (list wrect) :=
-  if lastrect && (c_MIN_SPLIT_RECT_SIZE <=? Z.of_nat (w * h)) then Err
+  (* quality >= 0: the client asked for JPEG; palette limits and zlib levels differ and JPEG
+     rectangles appear: not modelled (oracle only) *)
+  if (0 <=? quality) || (lastrect && (c_MIN_SPLIT_RECT_SIZE <=? Z.of_nat (w * h))) then Err
   else
     let lv := if level <? 0 then c_TIGHT_DEFAULT_COMPRESSION else level in
     send_tight (mkTP bypp (tight_pack24 depth rmax gmax bmax) (negb (be =? 0)) rs gs bs (tight_conf_index lv))
